@@ -415,8 +415,8 @@ class _Crash(Exception):
 
 
 def count_and_crash(case, paths, out_dir, crash_at):
-    """run the workflow, raising at the crash_at-th file action (open for writing, tofile,
-    pickle.dump, replace, unlink) inside bblean.multiround; returns number of actions seen"""
+    """run the workflow, raising at the crash_at-th file action (open for writing, pickle.dump,
+    Path.replace) of bblean.multiround; returns (number of actions seen, crashed?)"""
     import bblean.multiround as mr
     import builtins
     n = {"k": 0}
@@ -440,7 +440,7 @@ def count_and_crash(case, paths, out_dir, crash_at):
         def dump(self, obj, f, *a, **kw):
             tick()
             return pickle.dump(obj, f, *a, **kw)
-    real_replace, real_unlink = Path.replace, Path.unlink
+    real_replace = Path.replace
 
     def replace_spy(self, target):
         tick()
